@@ -27,7 +27,13 @@ type testKey struct {
 	blob   []byte
 	crypto any  // *rsa.PublicKey, *dsa.PublicKey, *ecdsa.PublicKey, ed25519.PublicKey or nil
 	rep    bool // representative of its format (used for the fault enumeration / certificates)
+	signed bool // certificate with a genuine CA signature
 }
+
+var (
+	caPriv ed25519.PrivateKey
+	caKey  *testKey
+)
 
 func mustPEM(name string) *pem.Block {
 	b, _ := pem.Decode(testdata.PEMBytes[name])
@@ -154,6 +160,10 @@ func buildKeys(c *vf.Ctx) []*testKey {
 	seed := c.Bytes("ed25519-seed", 0, 32)
 	real := ed25519.NewKeyFromSeed(seed).Public().(ed25519.PublicKey)
 	add("ed25519-real", &kf.Key{Type: kf.ED25519, Pub: []byte(real)}, real, true)
+	// the certificate authority key used for properly signed certificates
+	caPriv = ed25519.NewKeyFromSeed(c.Bytes("ed25519-ca-seed", 0, 32))
+	caPub := caPriv.Public().(ed25519.PublicKey)
+	caKey = add("ed25519-ca", &kf.Key{Type: kf.ED25519, Pub: []byte(caPub)}, caPub, false)
 	for i, v := range c.ValueClasses("ed25519", 32, c.V()) {
 		add(fmt.Sprintf("ed25519-class%d", i), &kf.Key{Type: kf.ED25519, Pub: v}, ed25519.PublicKey(v), false)
 	}
@@ -228,7 +238,7 @@ func buildCerts(c *vf.Ctx, keys []*testKey) []*testKey {
 		key    *testKey
 		format string
 	}
-	cas := []ca{{byType[kf.ED25519], kf.ED25519}, {byType[kf.RSA], "ssh-rsa"}, {byType[kf.RSA], "rsa-sha2-256"}, {byType[kf.RSA], "rsa-sha2-512"},
+	cas := []ca{{caKey, kf.ED25519}, {byType[kf.RSA], "ssh-rsa"}, {byType[kf.RSA], "rsa-sha2-256"}, {byType[kf.RSA], "rsa-sha2-512"},
 		{byType[kf.ECDSA256], kf.ECDSA256}, {byType[kf.ECDSA384], kf.ECDSA384}, {byType[kf.ECDSA521], kf.ECDSA521}, {byType[kf.DSA], kf.DSA},
 		{byType[kf.SKECDSA], kf.SKECDSA}, {byType[kf.SKED25519], kf.SKED25519}}
 	var out []*testKey
@@ -244,7 +254,12 @@ func buildCerts(c *vf.Ctx, keys []*testKey) []*testKey {
 				ref := *k.ref
 				ref.Type = kf.CertType(k.ref.Type)
 				ref.Cert = &cert
-				out = append(out, &testKey{name: fmt.Sprintf("cert[%s]/ca=%s/%s", k.name, a.format, v.name), ref: &ref, blob: kf.Encode(&ref), rep: ci == 0 && vi == 0})
+				if ci == 0 {
+					// a real CA signature (OpenSSH verifies it when it loads a certificate)
+					sig := ed25519.Sign(caPriv, kf.SignedBytes(&ref))
+					cert.Signature = append(sshwire.EncodeString([]byte(kf.ED25519)), sshwire.EncodeString(sig)...)
+				}
+				out = append(out, &testKey{name: fmt.Sprintf("cert[%s]/ca=%s/%s", k.name, a.format, v.name), ref: &ref, blob: kf.Encode(&ref), rep: ci == 0 && vi == 0, signed: ci == 0})
 			}
 		}
 	}
